@@ -336,8 +336,17 @@ def _run_bounded(b, tier, seed, findings):
            "known": [], "undecided": [], "functions": {}, "dropped": {}, "models_used": [], "paths": 0, "error": None}
     try:
         b.fn(ctx)
-    except Exception:
-        out["error"] = traceback.format_exc()
+    except Exception as e:
+        tb = traceback.extract_tb(e.__traceback__)
+        src = os.path.realpath(I.REPO_SRC)
+        lib = [f for f in tb if os.path.realpath(f.filename).startswith(src) and "/tests/" not in f.filename]
+        if lib and os.path.realpath(tb[-1].filename).startswith(src) or (lib and not tb[-1].filename.startswith(VERIF)):
+            # the code under test raised while its precondition held: a contract violation, not a checker error
+            ctx.evaluations += 1
+            ctx.failures.append({"case": "exception in the code under test", "inputs": {"exception": repr(e), "where": f"{lib[-1].filename}:{lib[-1].lineno} in {lib[-1].name}"},
+                                 "detail": traceback.format_exc()[-1500:]})
+        else:
+            out["error"] = traceback.format_exc()
     out["evaluations"] = ctx.evaluations
     out["distinct_nontrivial"] = len(ctx.nontrivial)
     out["samples"] = ctx.samples
